@@ -600,6 +600,7 @@ def compile_assign(
 @pattern_macro(((3, 12), "deftype"), [maybe(type_params), SYM, FORM])
 def compile_deftype(compiler, expr, root, tp, name, value):
     value = compiler.compile(value)
+    compiler.scope.define(mangle(name))
     return value + asty.TypeAlias(expr,
        name = asty.Name(name, id = mangle(name), ctx = ast.Store()),
        value = value.force_expr,
